@@ -117,14 +117,25 @@ Definition run_key (a : sx) : sx :=
   end.
 
 (* c18.multi: (dag root (op ...)) -> (result ...): a history of operations on
-   ONE prover; op = ('key bits vbits) | ('walk (path ...)) | ('drop (path ...));
+   ONE prover; op = ('key bits vbits) | ('walk (path ...)) | ('drop (path ...)) |
+   ('prog (instr ...)): a program over cursor variables, equal by definition to
+   the walk that prunes the positions of its Prune instructions;
    result = proof BOC | 'err | 'panic | 'none (abandoned cursor) *)
+(* instruction of a cursor program: (src k) = Ref, (v) = Prune *)
+Definition instr_of_sx (a : sx) : instr :=
+  match a with
+  | SL [SN src; SN k] => IRef (N.to_nat src) (N.to_nat k)
+  | SL [SN v] => IPrune (N.to_nat v)
+  | _ => IPrune 0
+  end.
+
 Definition op_of_sx (a : sx) : option op :=
   match a with
   | SL [SA k; SBits key; SN vbits] =>
       if String.eqb k "key" then Some (OpKey key (N.to_nat vbits)) else None
   | SL [SA k; SL paths] =>
-      if String.eqb k "walk" then Some (OpWalk (map path_of_sx paths))
+      if String.eqb k "prog" then Some (OpWalk (prog_prunes (map instr_of_sx paths)))
+      else if String.eqb k "walk" then Some (OpWalk (map path_of_sx paths))
       else if String.eqb k "drop" then Some (OpDrop (map path_of_sx paths))
       else None
   | _ => None
